@@ -656,7 +656,8 @@ def third_voice(spec: dict, obs: dict, workdir: str) -> list[str]:
         bad.append(f"tobytes() differs from onnx.numpy_helper.from_array(...).raw_data: {obs['tobytes'][1].hex()} vs {tp_ref.raw_data.hex()}")
     # decode our serialization with the reference decoder
     b = build(spec, workdir, "v")
-    if b.err is None and spec["rep"] != "external":
+    ext_ref = spec["rep"] == "external" or (spec["rep"] == "serialized" and spec["params"]["inner"]["rep"] == "external")
+    if b.err is None and not ext_ref:
         try:
             tp = serde.serialize_tensor(b.tensor)
             dec = onnx.numpy_helper.to_array(tp)
@@ -1061,6 +1062,10 @@ def observe_string(kind: str, shape, ss: list[bytes]) -> dict:
 
 def oracle_string(kind, shape, ss, obs) -> list[str]:
     bad = []
+    if kind == "S":
+        # the caller's own numpy 'S' array is the logical data (numpy already dropped trailing NULs in it)
+        import numpy as np
+        ss = [bytes(x) for x in np.array(list(ss), dtype=np.bytes_).tolist()] if ss else []
     if obs["dtype"] != 8:
         bad.append("dtype is not STRING")
     if obs["shape"] != list(shape) or obs["np_shape"] != list(shape):
@@ -1096,7 +1101,8 @@ def string_cases(ck):
 
 def is_known_string(kind, ss, bad) -> bool:
     """site of known finding string-trailing-nul: an element ending in NUL, numpy() only"""
-    return any(x.endswith(b"\x00") for x in ss) and all(b.startswith("numpy() elements") for b in bad) and kind != "obj"
+    return (any(x.endswith(b"\x00") for x in ss) and all(b.startswith("numpy() elements") for b in bad)
+            and kind in ("list", "proto", "deser", "ir.tensor"))
 
 
 # =========================================================================== the check
